@@ -132,6 +132,8 @@ func argValue(t types.Type, a any) (Value, error) {
 	return nil, fmt.Errorf("unsupported harness parameter type %v", t)
 }
 
+var hubs = map[string]*SolverHub{}
+
 func runObligation(eng *Engine, spec *Spec, ob Obligation) (res ObligationResult) {
 	t0 := time.Now()
 	res = ObligationResult{ID: ob.ID, Pkg: ob.Pkg, Fn: ob.Fn, Args: ob.Args}
@@ -154,14 +156,21 @@ func runObligation(eng *Engine, spec *Spec, ob Obligation) (res ObligationResult
 		}
 		args[i] = v
 	}
-	hub := &SolverHub{Primary: "z3", TimeoutMS: 20000, LogDir: ob.LogDir}
+	primary, tmo := "z3", 20000
 	if ob.Solver != "" {
-		hub.Primary = ob.Solver
+		primary = ob.Solver
 	}
-	hub.Second = ob.Second
 	if ob.TimeoutMS > 0 {
-		hub.TimeoutMS = ob.TimeoutMS
+		tmo = ob.TimeoutMS
 	}
+	hkey := fmt.Sprintf("%s|%s|%d|%s", primary, ob.Second, tmo, ob.LogDir)
+	hub := hubs[hkey]
+	if hub == nil {
+		hub = &SolverHub{Primary: primary, Second: ob.Second, TimeoutMS: tmo, LogDir: ob.LogDir}
+		hubs[hkey] = hub
+	}
+	before := hub.Stats
+	nerrBefore := len(hub.Errors)
 	if ob.LogDir != "" {
 		os.MkdirAll(ob.LogDir, 0o755)
 	}
@@ -228,12 +237,12 @@ func runObligation(eng *Engine, spec *Spec, ob Obligation) (res ObligationResult
 		}
 	}
 	st := &hub.Stats
-	res.Queries, res.CacheHits = st.Queries, st.CacheHits
-	res.SolverSat, res.SolverUnsat, res.SolverUnknown = st.Sat, st.Unsat, st.Unknown
-	res.SolverTimeS = float64(st.TimeNS) / 1e9
+	res.Queries, res.CacheHits = st.Queries-before.Queries, st.CacheHits-before.CacheHits
+	res.SolverSat, res.SolverUnsat, res.SolverUnknown = st.Sat-before.Sat, st.Unsat-before.Unsat, st.Unknown-before.Unknown
+	res.SolverTimeS = float64(st.TimeNS-before.TimeNS) / 1e9
 	res.MaxQueryS = float64(st.MaxQueryNS) / 1e9
-	res.CrossChecks, res.CrossAgree = st.CrossChecks, st.CrossAgree
-	res.SolverErrors = hub.Errors
+	res.CrossChecks, res.CrossAgree = st.CrossChecks-before.CrossChecks, st.CrossAgree-before.CrossAgree
+	res.SolverErrors = append([]string(nil), hub.Errors[nerrBefore:]...)
 	if run.MassOK && run.MassBits > 0 {
 		res.MassOK = true
 		res.Mass = run.Mass.String()
@@ -244,7 +253,7 @@ func runObligation(eng *Engine, spec *Spec, ob Obligation) (res ObligationResult
 	switch {
 	case len(res.Violations) > 0:
 		res.Status = "violation"
-	case run.Aborted != "" || run.Unsupported > 0 || run.Budget > 0 || run.Inconcl > 0 || len(hub.Errors) > 0 || len(res.MissingCovers) > 0 || (res.MassOK && !res.MassExact):
+	case run.Aborted != "" || run.Unsupported > 0 || run.Budget > 0 || run.Inconcl > 0 || len(res.SolverErrors) > 0 || len(res.MissingCovers) > 0 || (res.MassOK && !res.MassExact):
 		res.Status = "inconclusive"
 	default:
 		res.Status = "ok"
